@@ -181,6 +181,10 @@ def handle : List String → Option String
         | none => ""
       some s!"recv={boolStr r} cov={boolStr c}{mm}"
     | _ => none
+  | ["tiles", y0, y1, b, h0, s0, s2] => do
+    let y0 ← parseNat? y0; let y1 ← parseNat? y1; let b ← parseNat? b; let h0 ← parseNat? h0; let s0 ← parseNat? s0
+    let s2 ← if s2 == "-" then some none else (parseNat? s2).map some
+    some (boolStr (Receptive.checkTiles y0 y1 b h0 s0 s2))
   | "partition" :: rest => do
     let xs ← parseNats rest
     let region ← box3? (xs.take 6)
